@@ -11,14 +11,15 @@ ID = "C10"
 BUDGET = {"quick": 1200, "thorough": 150000}
 RULE = ("scenario = scheduler with 1-5 jobs of all types/limits, n_threads in {0,1,3}, default or user logger, fault pattern per "
         "poll (always / first only / alternating / random subset; any position in the batch) with exception classes Exception, "
-        "ValueError, a user subclass, SchedulerError, StopIteration, queue.Empty, KeyError; each scenario is run twice on the real "
+        "ValueError, a user subclass, SchedulerError, StopIteration, queue.Empty, KeyError, and instances that are falsy (__bool__ False, "
+        "__len__ 0) or whose str()/repr() raise; each scenario is run twice on the real "
         "code - with its fault pattern and with no faults - and the two runs must agree on everything except failed_attempts and "
         "the log count (non-interference); Spec: no exception out of exec_jobs, failed = number of raising invocations <= attempts, "
         "exactly one error record per failure on the scheduler's logger; non-trivial = at least one raising invocation in a batch "
         "of >= 2; distinct by scenario hash")
 ASSUMPTIONS = c01.ASSUMPTIONS + ["callbacks raise only Exception subclasses (KeyboardInterrupt/SystemExit are outside the quantifier)"]
 
-EXC = ["Exception", "ValueError", "UserError", "SchedulerError", "StopIteration", "QueueEmpty", "KeyError"]
+EXC = ["Exception", "ValueError", "UserError", "SchedulerError", "StopIteration", "QueueEmpty", "KeyError", "FalsyError", "EmptyError", "BadReprError"]
 
 
 def scenarios(rng, n, tier):
